@@ -205,6 +205,26 @@ def two_pipes_case(ctx, mods, qconjs, cplx=False):
     S0 = C.split_legs(0)
     S0.test_sanity()
     ctx.prove(S0.get_leg_labels() == ['a', 'b', '(c.d)'] and S0.shape == A.shape[:2] + (C.shape[1], ), 'split of the first pipe only')
+    # groups listed in an order different from their position in the result / explicit new_axes
+    for groups, new_axes, want in (([[2, 3], [0, 1]], None, ['(a.b)', '(c.d)']), ([[0, 1], [2, 3]], [1, 0], ['(c.d)', '(a.b)']),
+                                   ([[2, 3], [0, 1]], [0, 1], ['(c.d)', '(a.b)']), ([['d', 'c'], ['b', 'a']], None, ['(b.a)', '(d.c)'])):
+        D = A.combine_legs(groups, new_axes=new_axes)
+        D.test_sanity()
+        ctx.prove(D.get_leg_labels() == want, f'labels for groups {groups} new_axes {new_axes}')
+        if D.get_leg_labels() != want:
+            continue
+        dD = D.to_ndarray()
+        refD = np.empty(dD.shape, dtype=dD.dtype)
+        for idx in itertools.product(*[range(x.ind_len) for x in legs]):
+            byname = dict(zip('abcd', idx))
+            pos = []
+            for lab in want:
+                names = lab[1:-1].split('.')
+                pos.append(int(D.get_leg(lab).map_incoming_flat([byname[nm] for nm in names])))
+            refD[tuple(pos)] = dA[idx]
+        ctx.prove_eq(dD, refD, f'entries for groups {groups} new_axes {new_axes}')
+        back = D.split_legs().transpose(['a', 'b', 'c', 'd'])
+        ctx.prove_eq(back.to_ndarray(), dA, f'split after combine with groups {groups} new_axes {new_axes}')
     # nested pipe, conjugated, then split down to the innermost legs: every leg is the conjugate of the original one
     N = A.combine_legs([0, 1]).combine_legs([0, 1])  # ((a.b).c), d
     Nc = N.conj()
